@@ -39,6 +39,11 @@ func init() {
 				// loses its acknowledgement, or a crash, in between must not leave a rollback done on some targets only
 				p.Profile += "+store-faults"
 				for i := 0; i <= g.pick(2); i++ {
+					if g.chance(1, 2) {
+						// ... right after the creation of a proposal: between the per-target proposals of one transaction
+						p.Faults = append(p.Faults, Fault{Kind: []string{"crash", "op-unavail", "op-acklost"}[g.pick(3)], On: "after-write", Target: "proposals/insert", N: 2 + g.pick(10), Burst: g.pick(2)})
+						continue
+					}
 					switch g.pick(3) {
 					case 0:
 						p.Faults = append(p.Faults, Fault{Kind: "crash", On: "effect", N: 5 + g.pick(150)})
